@@ -17,12 +17,13 @@ from harness import core
 from harness.props import _sched_common as SC
 
 MANIFEST_ENTRY = {
-    "text": "Lean theorems (Props/C07.lean) prove for the schedule model, for every number of sites and crews, capacity, day count and per-request crew outcome: C07_conservation (the requests taken on a day are, as a permutation, the completed ones plus the ones put back exactly once; every planned request carries a report; the completion counter of the day's year rises by exactly one per completed request), C07_no_duplicates (a site never has two outstanding requests: invariant queued <-> in the queue, queue sites Nodup, proved by induction over arbitrary histories of days, first flags and re-detections), C07_priority (pop order is ascending in (class, rate, counter); class 1 <-> survey in progress, class 3 <-> never planned for routine schedules, so interrupted surveys come before unattended before new requests), C07_fifo (requests put back on one day into the same class keep the plan order and stay behind older entries of that class), C07_minutes (minutes of the days of one survey add up to the site's survey time at completion). The model is tied to the real GenericSchedule/StationarySchedule/FollowUpMobileSchedule/Workplan/PriorityQueueWithFIFO/planner classes and Method/ComponentLevelMethod.deploy_crews by day-by-day differential correspondence (exhaustive small histories + random larger runs) on every run; the property's clauses are evaluated directly on the implementation traces and on whole-simulation traces.",
+    "text": "Lean theorems (Props/C07.lean) prove for the schedule model, for every number of sites and crews, capacity, day count and per-request crew outcome: C07_conservation (the requests taken on a day are, as a permutation, the completed ones plus the ones put back exactly once; every planned request carries a report; the completion counter of the day's year rises by exactly one per completed request), C07_no_duplicates (a site never has two outstanding requests: invariant queued <-> in the queue, queue sites Nodup, proved by induction over arbitrary histories of days, first flags and re-detections), C07_priority (pop order is ascending in (class, rate, counter); class 1 <-> survey in progress, class 3 <-> never planned for routine schedules, so interrupted surveys come before unattended before new requests), C07_fifo (requests put back on one day into the same class keep the plan order and stay behind older entries of that class), C07_minutes / minutes_add_up (running sum of the daily minutes = report minutes, = survey time at completion), applyOutcome_refines_step + minutes_add_up_crew (the outcomes are a refinement of the crew model's surveyStep; with the crew arithmetic 0 < P < S while in progress), C07_routine_waiting_is_new (in routine schedules only new requests ever wait, so the order of waiting requests is stable across days), C07_followup_duplicate_counterexample (without the callers' guarantee in RunOK the follow-up queue does hold duplicates: F13). The model is tied to the real GenericSchedule/StationarySchedule/FollowUpMobileSchedule/Workplan/PriorityQueueWithFIFO/planner classes and Method/ComponentLevelMethod.deploy_crews by day-by-day differential correspondence (exhaustive small histories + random larger runs) on every run; the property's clauses are evaluated directly on the implementation traces and on whole-simulation traces.",
     "design_ref": "DESIGN.md 5.7, 4.3",
     "note": "trusted: Lean kernel + propext/Classical.choice/Quot.sound; the hand-written schedule model (tied by sampled/exhaustive correspondence, not proof); the heap of queue.PriorityQueue is modelled by its specification (sorted list); what the crews achieve per request and day is an input of the model (the crew arithmetic is C08's model); harness adapters and stubs (site, weather cube)",
     "technique": "Lean 4 invariant proofs over the queue/planner/work-plan model + differential correspondence with the real classes + direct oracle on component and whole-run traces",
 }
 
+SIG_F13 = "C07:duplicate-outstanding:site-flagged-twice-by-callers"
 MODULE = "LdarModel.Props.C07"
 FILE = "LdarModel/Props/C07.lean"
 
@@ -45,11 +46,24 @@ def oracle_trace(ctx, case, trace, followup=False, static=None):
     n_cap = None if kind == "stationary" else case["crews"] * case["_cap_used"]
     for k, rec in enumerate(trace):
         if rec["crash"]:
-            if rec["crash"] != "key_error":  # KeyError over New Year is C06's finding F12
+            yr_missing = static is not None and any(rec["date"][0] not in st["sim_years"] for st in static)
+            if rec["crash"] == "key_error" and not yr_missing:
+                ctx.violate("C07:crash:KeyError:unexpected",
+                            f"KeyError raised by the schedule on {rec['date']} (every planner has a counter for that year)",
+                            {"case": strip(case), "day": k})
+            if rec["crash"] != "key_error":  # KeyError over New Year (year without counter) is C06's finding F12
                 ctx.violate("C07:crash:" + rec["crash"], f"{rec['crash']} raised by the schedule on {rec['date']}",
                             {"case": strip(case), "day": k})
             break
         inp = {"case": strip(case), "day": k}
+        if followup and case.get("_double_add"):
+            qb = sid(rec["queue_before"])
+            if len(set(qb)) != len(qb):
+                # outside RunOK: the caller flagged a site that already had an outstanding follow-up (F13)
+                ctx.violate(SIG_F13, f"two follow-up requests of one site in the queue {qb} after the site was "
+                            f"flagged a second time", inp)
+                ctx.count("followup_histories_outside_RunOK_checked")
+                break
         plan = rec["plan"]
         outs = {o[0]: o for o in rec["outcomes"]}
         completed = [i for i in plan if outs[i][1] == "C"]
@@ -76,6 +90,12 @@ def oracle_trace(ctx, case, trace, followup=False, static=None):
         # ---- counted exactly once, on today's year
         if followup:
             done_now = {(i, rec["date"][0]): n for i, n in rec["totals"].items()}
+            # the REAL counters of the planner objects planned today: {year: 1} iff the survey completed
+            for i, real in rec["real_done"]:
+                want = [[rec["date"][0], 1]] if i in completed else []
+                if real != want:
+                    ctx.violate("C07:done-count", f"follow-up site {i}: completed today={i in completed}, the "
+                                f"planner's _surveys_this_year is {real}", inp)
         else:
             done_now = {(p["site"], y): n for p in rec["planners"] for y, n in p["done"]}
         for (i, y), n in done_now.items():
@@ -231,13 +251,18 @@ def random_followup(rng, big=False):
             "sites": [{"id": i + 1, "S": rng.choice([20, 30, 60, 90, 150, 300, 600])} for i in range(ns)],
             "weather": [1 if rng.random() < 0.7 else 0 for _ in range(nd)], "ops": []}
 
+    double = rng.random() < 0.04  # a history outside RunOK: one site is flagged twice (two screening methods)
+
     def ops_fn(k, flagged):
         ops = []
         flagged = set(flagged)
         for s in case["sites"]:
             i = s["id"]
             r = rng.random()
-            if i not in flagged and r < 0.45:
+            if double and i in flagged and not case.get("_double_add") and r > 0.6:
+                ops.append(["add", rng.choice([3, 2]), i, rng.randint(1, 4)])
+                case["_double_add"] = True
+            elif i not in flagged and r < 0.45:
                 ops.append(["add", rng.choice([3, 3, 2]), i, rng.randint(1, 4)])
                 flagged.add(i)
             elif i in flagged and r < 0.3:
@@ -282,7 +307,12 @@ def run_cases(ctx, cases, followup_fns=None):
         if case["kind"] == "followup":
             fn = followup_fns.get(id(case)) if followup_fns else None
             trace = A.run_followup(case, fn)
-            req, exp = SC.lines_followup(case, trace)
+            ctx.count("followup_histories")
+            if case.get("_double_add"):
+                req, exp = [], []  # outside the model's hypothesis RunOK: oracle only
+            else:
+                ctx.count("followup_histories_RunOK")
+                req, exp = SC.lines_followup(case, trace)
             static = None
         else:
             static, trace = A.run_routine(case)
@@ -293,7 +323,7 @@ def run_cases(ctx, cases, followup_fns=None):
     for (case, static, trace, req, exp), mod in zip(metas, models):
         ctx.evaluations += 1
         ok = SC.compare(ctx, "sched:" + case["kind"], strip(case), req, exp, mod)
-        ctx.count("corr:" + case["kind"] + (":ok" if ok else ":DIFF"))
+        ctx.count("corr:" + case["kind"] + (":outside-RunOK" if not req else (":ok" if ok else ":DIFF")))
         ctx.traces += 1
         ctx.count("days", len(trace))
         oracle_trace(ctx, case, trace, followup=case["kind"] == "followup", static=static)
@@ -335,6 +365,10 @@ def run(ctx):
         c, fn = random_followup(rng, big=(k % 10 == 0))
         fns[id(c)] = fn
         cases.append(c)
+    # the stored witness of F13 (a site flagged twice by its callers), always replayed
+    cases.append({"kind": "followup", "method_class": "component", "start": [2024, 3, 1], "end": [2024, 12, 31],
+                  "ndays": 2, "crews": 1, "cap": 2, "T": 0, "hours": 8, "sites": [{"id": 1, "S": 60}, {"id": 2, "S": 60}],
+                  "weather": [], "_double_add": True, "ops": [[["add", 3, 1, 5], ["add", 3, 1, 4]], []]})
     # in chunks, so that a disagreement early does not cost the whole budget
     metas = []
     CH = 2000
@@ -345,6 +379,11 @@ def run(ctx):
     for (case, static, trace, req, exp) in metas:
         ctx.sample({"case": strip(case), "first_day_reply": exp[1] if len(exp) > 1 else None})
     wholerun_oracle(ctx)
+    ctx.extra["hypothesis_hit_rate"] = {
+        "RunOK (follow-up histories whose callers flag a site only while it has no outstanding follow-up)":
+            [ctx.counts.get("followup_histories_RunOK", 0), ctx.counts.get("followup_histories", 0)],
+        "routine / stationary histories need no hypothesis": [ctx.counts.get("corr:routine:ok", 0)
+                                                              + ctx.counts.get("corr:stationary:ok", 0)] * 2}
     ctx.assumptions.append("crew outcomes per planned request (completed / in progress with minutes / unattended) "
                            "are inputs of the model, read from the real reports after deploy_crews")
 
@@ -383,7 +422,7 @@ def replay(ctx, data):
         oracle_trace(ctx, case, trace, followup=True)
     else:
         static, trace = A.run_routine(case)
-        oracle_trace(ctx, case, trace)
+        oracle_trace(ctx, case, trace, static=static)
     for rec in trace:
         print(rec["date"], "plan", rec.get("plan"), "outcomes", rec.get("outcomes"), "queue", rec.get("queue"))
     for v in ctx.violations:
